@@ -16,16 +16,17 @@ import (
 
 // GenOpts controls the shape of generated schemas.
 type GenOpts struct {
-	MaxDepth   int
-	MaxKids    int
-	Choices    bool     // generate choice statements (possibly nested in cases)
-	Lists      bool     // generate lists
-	Defaults   bool     // give some leaves defaults
-	LeafLists  bool     // generate leaf-lists
-	ConfigMix  bool     // mark some sub-trees config false
-	Types      []string // leaf type pool (YANG type statements without the trailing ;), nil = DefaultTypes
-	KeyTypes   []string // key leaf type pool, nil = DefaultKeyTypes
-	ModuleName string
+	MaxDepth    int
+	MaxKids     int
+	Choices     bool     // generate choice statements (possibly nested in cases)
+	Lists       bool     // generate lists
+	Defaults    bool     // give some leaves defaults
+	LeafLists   bool     // generate leaf-lists
+	ConfigMix   bool     // mark some sub-trees config false
+	ChoiceHeavy bool     // about half of the non-leaf definitions are choices
+	Types       []string // leaf type pool (YANG type statements without the trailing ;), nil = DefaultTypes
+	KeyTypes    []string // key leaf type pool, nil = DefaultKeyTypes
+	ModuleName  string
 }
 
 var DefaultTypes = []string{"int8", "int16", "int32", "int64", "uint8", "uint16", "uint32", "uint64", "string", "boolean",
@@ -91,6 +92,9 @@ func (g *schemaGen) kids(depth int, inCase bool) []*gnode {
 	var out []*gnode
 	for i := 0; i < n; i++ {
 		roll := g.r.Intn(10)
+		if g.o.ChoiceHeavy && g.o.Choices && roll >= 4 && depth < g.o.MaxDepth && g.r.Chance(1, 2) {
+			roll = 9
+		}
 		switch {
 		case roll < 4 || depth >= g.o.MaxDepth:
 			if g.o.LeafLists && g.r.Chance(1, 5) {
@@ -430,4 +434,100 @@ func Subsample(r *gen.Rng, s *SNode, c *Cont, keep, mutate int) *Cont {
 		}
 	}
 	return n
+}
+
+// GenDataAgainst is GenData biased to populate, in every choice, a case DIFFERENT from the one the
+// given target content currently holds (so that an upsert of the result has to switch cases).
+func GenDataAgainst(r *gen.Rng, s *SNode, density int, maxRows int, against *Cont) *Cont {
+	if against == nil {
+		return GenData(r, s, density, maxRows)
+	}
+	c := NewCont()
+	held := make([]int, len(s.Choices))
+	for i := range held {
+		held[i] = -1
+	}
+	for _, kid := range s.Kids {
+		if against.has(kid.Name) {
+			for _, g := range kid.Guard {
+				if held[g[0]] < 0 || g[1] < held[g[0]] {
+					held[g[0]] = g[1]
+				}
+			}
+		}
+	}
+	chosen := make([]int, len(s.Choices))
+	for i, ch := range s.Choices {
+		n := len(ch.CaseIdents())
+		chosen[i] = -1
+		if r.Chance(density, 100) {
+			chosen[i] = r.Intn(n)
+			if held[i] >= 0 && n > 1 && r.Chance(4, 5) {
+				chosen[i] = (held[i] + 1 + r.Intn(n-1)) % n
+			}
+		}
+	}
+	isKey := map[string]bool{}
+	for _, k := range s.Keys {
+		isKey[s.Kids[k].Name] = true
+	}
+	for _, kid := range s.Kids {
+		ok := true
+		for _, g := range kid.Guard {
+			if chosen[g[0]] != g[1] {
+				ok = false
+			}
+		}
+		if !ok || isKey[kid.Name] || !r.Chance(density, 100) {
+			continue
+		}
+		switch kid.Kind {
+		case KLeaf:
+			c.Leaves[kid.Name] = GenValue(r, kid.Leafable())
+		case KCont:
+			c.Conts[kid.Name] = GenDataAgainst(r, kid, density, maxRows, against.Conts[kid.Name])
+		case KList:
+			l := &List{}
+			var trows []*Cont
+			if tl := against.Lists[kid.Name]; tl != nil {
+				trows = tl.Rows
+			}
+			seen := map[string]bool{}
+			// rows with the keys of existing target rows (to merge into them) plus fresh ones
+			for _, tr := range trows {
+				if !r.Chance(2, 3) {
+					continue
+				}
+				row := GenDataAgainst(r, kid, density, maxRows, tr)
+				var ks []string
+				for _, k := range kid.Keys {
+					v := tr.Leaves[kid.Kids[k].Name]
+					if v == nil {
+						v = GenValue(r, kid.Kids[k].Leafable())
+					}
+					row.Leaves[kid.Kids[k].Name] = v
+					ks = append(ks, v.String())
+				}
+				if id := strings.Join(ks, "\x00"); !seen[id] {
+					seen[id] = true
+					l.Rows = append(l.Rows, row)
+				}
+			}
+			for i := r.Intn(maxRows + 1); i > 0; i-- {
+				row := GenData(r, kid, density, maxRows)
+				var ks []string
+				for _, k := range kid.Keys {
+					v := GenValue(r, kid.Kids[k].Leafable())
+					row.Leaves[kid.Kids[k].Name] = v
+					ks = append(ks, v.String())
+				}
+				if id := strings.Join(ks, "\x00"); !seen[id] {
+					seen[id] = true
+					l.Rows = append(l.Rows, row)
+				}
+			}
+			c.Lists[kid.Name] = l
+		}
+	}
+	return c
 }
